@@ -755,6 +755,15 @@ func (c *Client) Start(msg *Message, handler Handler) error {
 			return err
 		}
 		if err := c.a.Start(msg.TransactionID, d); err != nil {
+			if !c.delete(msg.TransactionID) {
+				// Completed concurrently after it was registered: the handler
+				// has got the outcome, so no error is reported in addition.
+				return nil
+			}
+			// Not started: the handler must not stay registered, or a later
+			// event with this ID would invoke it although Start failed.
+			putClientTransaction(t)
+
 			return err
 		}
 	}
